@@ -246,6 +246,9 @@ class DI:
 			raise TypeError(f'Merging not allowed. not related. self: {self.__class__}, other: {other.__class__}')
 
 		di = self._clone()
+		for symbol in [symbol for symbol in di.__injectors.keys() if other.can_resolve(symbol)]:
+			di.unbind(symbol)
+
 		di.__instances = {**di.__instances, **other.__instances}
 		di.__injectors = {**di.__injectors, **other.__injectors}
 		return di
